@@ -96,7 +96,7 @@ fn exhaustive_short(e: &mut Eng, len: usize, states: &[usize]) {
                 continue;
             }
             let c = single(&ops, b);
-            e.run(&c, JudgeOpts { mapped: false, lockstep: true }, kind);
+            e.run(&c, JudgeOpts { mapped: false, lockstep: true, eval: false }, kind);
         }
     }
     e.rep.set("exhaustive_subspaces", format!("all {total} programs of {len} ops over {n} symbols x {} initial states", bases.len()));
@@ -133,7 +133,7 @@ fn operand_matrix(e: &mut Eng, triples: bool) {
                     c.stack.extend([a, b]);
                     // an unguarded Compute re-executes itself forever when its children end at once
                     let _ = bi;
-                    e.run(&c, JudgeOpts { mapped: false, lockstep: true }, "matrix");
+                    e.run(&c, JudgeOpts { mapped: false, lockstep: true, eval: false }, "matrix");
                 }
             }
         }
@@ -147,7 +147,7 @@ fn operand_matrix(e: &mut Eng, triples: bool) {
                             }
                             let mut c = single(&[*op], base);
                             c.stack.extend([a, b, c3]);
-                            e.run(&c, JudgeOpts { mapped: false, lockstep: true }, "matrix");
+                            e.run(&c, JudgeOpts { mapped: false, lockstep: true, eval: false }, "matrix");
                         }
                     }
                 }
@@ -161,6 +161,7 @@ fn operand_matrix(e: &mut Eng, triples: bool) {
 }
 
 fn control_matrix(e: &mut Eng, thorough: bool) {
+    let ev = e.args.prop == "C09";
     let mut r = Rng::new(e.args.seed ^ 0x99);
     let base = vmgen::base_case(&mut r);
     // jumps: every distance around the program, every condition
@@ -181,7 +182,7 @@ fn control_matrix(e: &mut Eng, thorough: bool) {
                     // bounded by the step cap of the model (=> unspecified) or by stack overflow.
                     let mut case = single(&ops, &base);
                     case.limit = 300;
-                    e.run(&case, JudgeOpts { mapped: true, lockstep: true }, "control-matrix");
+                    e.run(&case, JudgeOpts { mapped: true, lockstep: true, eval: ev }, "control-matrix");
                 }
             }
         }
@@ -192,7 +193,7 @@ fn control_matrix(e: &mut Eng, thorough: bool) {
         for dir in [-1i64, 0, 1, 2] {
             if e.mine() {
                 let ops = vec![PUSH(n), PUSH(dir), REP, REPC, REPE, PUSH(42)];
-                e.run(&single(&ops, &base), JudgeOpts { mapped: true, lockstep: true }, "control-matrix");
+                e.run(&single(&ops, &base), JudgeOpts { mapped: true, lockstep: true, eval: ev }, "control-matrix");
             }
             for &n2 in &[0i64, 1, 2, 3] {
                 for dir2 in [0i64, 1] {
@@ -200,7 +201,7 @@ fn control_matrix(e: &mut Eng, thorough: bool) {
                         continue;
                     }
                     let ops = vec![PUSH(n.clamp(-1, 5)), PUSH(dir), REP, REPC, PUSH(n2), PUSH(dir2), REP, REPC, POP, REPE, POP, REPC, POP, REPE, REPC];
-                    e.run(&single(&ops, &base), JudgeOpts { mapped: true, lockstep: true }, "control-matrix");
+                    e.run(&single(&ops, &base), JudgeOpts { mapped: true, lockstep: true, eval: ev }, "control-matrix");
                 }
             }
         }
@@ -219,7 +220,7 @@ fn control_matrix(e: &mut Eng, thorough: bool) {
             ops.push(REPE);
         }
         ops.push(REPE); // one too many when depth <= 4096
-        e.run(&single(&ops, &base), JudgeOpts { mapped: false, lockstep: true }, "control-matrix");
+        e.run(&single(&ops, &base), JudgeOpts { mapped: false, lockstep: true, eval: ev }, "control-matrix");
     }
     // halts and panics everywhere
     for c in [-1i64, 0, 1, 2] {
@@ -228,12 +229,22 @@ fn control_matrix(e: &mut Eng, thorough: bool) {
                 continue;
             }
             let ops = vec![PUSH(5), PUSH(c), op, PUSH(6)];
-            e.run(&single(&ops, &base), JudgeOpts { mapped: true, lockstep: true }, "control-matrix");
+            e.run(&single(&ops, &base), JudgeOpts { mapped: true, lockstep: true, eval: ev }, "control-matrix");
+        }
+    }
+    // eval: every interesting last word, with other words below it
+    for top in [-1i64, 0, 1, 2, i64::MAX, i64::MIN] {
+        for below in [vec![], vec![0], vec![1], vec![1, 0], vec![0, 1], vec![2, 2]] {
+            if e.mine() {
+                let mut ops: Vec<Op> = below.iter().map(|w| PUSH(*w)).collect();
+                ops.push(PUSH(top));
+                e.run(&single(&ops, &base), JudgeOpts { mapped: false, lockstep: true, eval: ev }, "control-matrix");
+            }
         }
     }
     for ops in [vec![REPE], vec![REPC], vec![HLT, PUSH(1)], vec![PUSH(1), HLT], vec![]] {
         if e.mine() {
-            e.run(&single(&ops, &base), JudgeOpts { mapped: true, lockstep: true }, "control-matrix");
+            e.run(&single(&ops, &base), JudgeOpts { mapped: true, lockstep: true, eval: ev }, "control-matrix");
         }
     }
 }
@@ -284,7 +295,7 @@ fn read_matrix(e: &mut Eng, thorough: bool) {
                             }
                             ops.extend([PUSH(klen as i64), PUSH(count), PUSH(addr), op, PUSH(1)]);
                             c.set_ops(&ops);
-                            e.run(&c, JudgeOpts { mapped: false, lockstep: true }, "read-matrix");
+                            e.run(&c, JudgeOpts { mapped: false, lockstep: true, eval: false }, "read-matrix");
                         }
                     }
                 }
@@ -313,7 +324,7 @@ fn access_matrix(e: &mut Eng, thorough: bool) {
                             continue;
                         }
                         let ops = vec![PUSH(3), PUSH(slot), PUSH(ix), PUSH(len), DATA, PUSH(slot), DLEN, DSLT];
-                        e.run(&single(&ops, &base), JudgeOpts { mapped: false, lockstep: true }, "access-matrix");
+                        e.run(&single(&ops, &base), JudgeOpts { mapped: false, lockstep: true, eval: false }, "access-matrix");
                     }
                 }
             }
@@ -332,7 +343,7 @@ fn access_matrix(e: &mut Eng, thorough: bool) {
                 ops.extend([PUSH(8), COM]);
                 ops.extend(crate::model::word_4_from_u8_32(hashes[0]).map(PUSH));
                 ops.extend([PEX, PUSH(1), ALOC, STO, COME]);
-                e.run(&single(&ops, &base), JudgeOpts { mapped: true, lockstep: true }, "access-matrix");
+                e.run(&single(&ops, &base), JudgeOpts { mapped: true, lockstep: true, eval: false }, "access-matrix");
             }
         }
     }
@@ -346,11 +357,11 @@ fn access_matrix(e: &mut Eng, thorough: bool) {
         let words: usize = (len + 7) / 8;
         let mut ops: Vec<Op> = (0..words).map(|_| PUSH(r.word())).collect();
         ops.extend([PUSH(len as i64), SHA2]);
-        e.run(&single(&ops, &base), JudgeOpts { mapped: false, lockstep: true }, "access-matrix");
+        e.run(&single(&ops, &base), JudgeOpts { mapped: false, lockstep: true, eval: false }, "access-matrix");
         // one word too few / negative / huge length
         let mut ops: Vec<Op> = (0..words.saturating_sub(1)).map(|_| PUSH(r.word())).collect();
         ops.extend([PUSH(len as i64), SHA2]);
-        e.run(&single(&ops, &base), JudgeOpts { mapped: false, lockstep: true }, "access-matrix");
+        e.run(&single(&ops, &base), JudgeOpts { mapped: false, lockstep: true, eval: false }, "access-matrix");
     }
     // too few operands for every access / crypto op
     for op in [PEX, DATA, DLEN, SHA2, VRFYED, RSECP, THIS, THISC, DSLT] {
@@ -358,17 +369,17 @@ fn access_matrix(e: &mut Eng, thorough: bool) {
             if e.mine() {
                 let mut ops: Vec<Op> = (0..n).map(|i| PUSH(i as i64)).collect();
                 ops.push(op);
-                e.run(&single(&ops, &base), JudgeOpts { mapped: false, lockstep: true }, "access-matrix");
+                e.run(&single(&ops, &base), JudgeOpts { mapped: false, lockstep: true, eval: false }, "access-matrix");
                 // and with a full stack (pushes must fail)
                 let mut c = single(&[op], &base);
                 c.stack = vec![0; 4096 - n];
-                e.run(&c, JudgeOpts { mapped: false, lockstep: true }, "access-matrix");
+                e.run(&c, JudgeOpts { mapped: false, lockstep: true, eval: false }, "access-matrix");
             }
         }
     }
     for l in [-1i64, i64::MAX, i64::MIN, 1 << 40] {
         if e.mine() {
-            e.run(&single(&[PUSH(1), PUSH(l), SHA2], &base), JudgeOpts { mapped: false, lockstep: true }, "access-matrix");
+            e.run(&single(&[PUSH(1), PUSH(l), SHA2], &base), JudgeOpts { mapped: false, lockstep: true, eval: false }, "access-matrix");
         }
     }
 }
@@ -439,7 +450,7 @@ fn byte_programs(e: &mut Eng, n: u64) {
                 case.memory = vec![0; 8];
                 case.limit = 2_000;
                 case.set_ops(&ops);
-                e.run(&case, JudgeOpts { mapped: true, lockstep: true }, "byte-program");
+                e.run(&case, JudgeOpts { mapped: true, lockstep: true, eval: false }, "byte-program");
             }
         }
     }
@@ -468,8 +479,8 @@ pub fn run(args: &Args, rep: &mut Report) {
         args,
         n: 0,
     };
-    let ls = JudgeOpts { mapped: false, lockstep: true };
-    let lsm = JudgeOpts { mapped: true, lockstep: true };
+    let ls = JudgeOpts { mapped: false, lockstep: true, eval: args.prop == "C09" };
+    let lsm = JudgeOpts { mapped: true, lockstep: true, eval: false };
     match args.prop.as_str() {
         "C05" => {
             exhaustive_short(&mut e, 2, if thorough { &[0, 1, 2, 3, 4, 5, 6, 7, 8, 9, 10, 11] } else { &[0, 1, 5, 7, 8, 11] });
@@ -537,5 +548,5 @@ pub fn replay(case: &VmCase, rep: &mut Report) {
     mon.install();
     vmcase::install_panic_hook();
     let mut pools = Pools::new();
-    judge(case, rep, &mon, &mut pools, JudgeOpts { mapped: true, lockstep: true });
+    judge(case, rep, &mon, &mut pools, JudgeOpts { mapped: true, lockstep: true, eval: true });
 }
